@@ -47,6 +47,48 @@ def _fold_local(repo, mod, node, expr, rule):
         raise AnalysisError(rule, ast.unparse(node), f'cannot fold `{ast.unparse(expr)}` to a constant: {e}')
 
 
+def _payload_kind(repo, fn, e, depth=0):
+    """'text' | 'mutable hand object' | 'unknown' for the expression handed to Queue.put."""
+    if depth > 4:
+        return 'unknown'
+    if isinstance(e, ast.JoinedStr) or (isinstance(e, ast.Constant) and isinstance(e.value, str)):
+        return 'text'
+    if isinstance(e, ast.BinOp) and isinstance(e.op, ast.Add):
+        ks = {_payload_kind(repo, fn, e.left, depth + 1), _payload_kind(repo, fn, e.right, depth + 1)}
+        return 'text' if ks == {'text'} else ('unknown' if 'unknown' in ks else sorted(ks - {'text'})[0])
+    if isinstance(e, ast.IfExp):
+        ks = {_payload_kind(repo, fn, e.body, depth + 1), _payload_kind(repo, fn, e.orelse, depth + 1)}
+        return 'text' if ks == {'text'} else ('unknown' if 'unknown' in ks else sorted(ks - {'text'})[0])
+    if isinstance(e, ast.Attribute):
+        if e.attr in ('formal_name', 'name') or (isinstance(e.value, ast.Attribute) and e.value.attr == 'Message'):
+            return 'text'
+        return 'unknown'
+    if isinstance(e, ast.Call):
+        f = ast.unparse(e.func)
+        if f.endswith(('hand_to_str', 'remove_alert_word', 'receive_message', 'receive_message_from_queue', '.get', 'convert_vul', 'str', '.format', '.join', '_hand_message')):
+            return 'text'
+        return 'unknown'
+    if isinstance(e, ast.Subscript):
+        base = e.value
+        ann = {a.arg: (ast.unparse(a.annotation) if a.annotation is not None else '') for a in fn.args.args}
+        if isinstance(base, ast.Name) and 'Hands' in ann.get(base.id, ''):
+            return 'mutable hand object'
+        return 'unknown'
+    if isinstance(e, ast.Name):
+        ann = {a.arg: (ast.unparse(a.annotation) if a.annotation is not None else '') for a in fn.args.args}
+        if e.id in ann:
+            if ann[e.id] == 'str':
+                return 'text'
+            if 'Hands' in ann[e.id] or 'Set[' in ann[e.id]:
+                return 'mutable hand object'
+        defs = [n.value for n in ast.walk(fn) if isinstance(n, ast.Assign) and len(n.targets) == 1 and isinstance(n.targets[0], ast.Name) and n.targets[0].id == e.id]
+        if not defs:
+            return 'unknown'
+        ks = {_payload_kind(repo, fn, d, depth + 1) for d in defs}
+        return 'text' if ks == {'text'} else ('unknown' if 'unknown' in ks else sorted(ks - {'text'})[0])
+    return 'unknown'
+
+
 def discipline(chk, rule='C09.R1'):
     """Static KPN discipline.  Returns the inventory (also used by C08 / C10)."""
     repo = chk.repo
@@ -94,6 +136,20 @@ def discipline(chk, rule='C09.R1'):
                      f'`{txt}`: `{o.op}` on a message queue is a timing-dependent operation (polling / non-blocking); only blocking get() and put(x) keep '
                      f'the outcome independent of the schedule')
     chk.floor(rule, 'queue operations', len([o for o in qops if o.op in ('put', 'get')]), 4)
+    # messages are immutable values: what crosses a queue is text (or a control token), never an object another thread keeps mutating
+    for o in qops:
+        if o.op == 'put' and o.call.args:
+            kind = _payload_kind(repo, o.fn, o.call.args[0])
+            where = repo.where(sm, o.call)
+            if kind == 'text':
+                chk.ok(rule, where, f'{o.qual}: `{ast.unparse(o.call.args[0])[:40]}` handed to the queue is text')
+            elif kind == 'unknown':
+                raise AnalysisError(rule, o.qual, f'cannot type the payload of `{ast.unparse(o.call)[:70]}` at {where}')
+            else:
+                chk.fail(rule, where, o.qual, f'queue payload `{ast.unparse(o.call.args[0])[:50]}` is a {kind}',
+                         f'`{ast.unparse(o.call)[:80]}` hands a {kind} to another thread: the main thread keeps removing played cards from the hand sets of the board '
+                         f'being played, so what the receiving thread formats depends on when it runs (a seat can be shown dummy with a card missing) - only text '
+                         f'built by the sender may cross a queue')
     # single producer / single consumer per role and attribute
     by_attr = {}
     for o in qops:
